@@ -1,5 +1,6 @@
 #!/usr/bin/env python3
-"""Copy confirmed seeded changes from the sub-agents' output into /verif/seeded/<id>/ with meta.json, and write seeded/MATRIX.md
+"""NOTE: the agents' output directories under /tmp/seed were removed after the final collection; everything is kept under seeded/.
+Copy confirmed seeded changes from the sub-agents' output into /verif/seeded/<id>/ with meta.json, and write seeded/MATRIX.md
 from the seed-matrix TSV files (tools/seed_matrix.sh).  Round 1: /tmp/seed/out (patch1, patch2); round 2: /tmp/seed/out2 (kept as
 patch3, patch4); benign refactorings: /tmp/seed/out3 (kept under seeded/benign/)."""
 import json, os, re, shutil, glob
